@@ -219,7 +219,9 @@ func (r *Runner) builtin(ctx context.Context, pos syntax.Pos, name string, args 
 
 		for _, arg := range args {
 			if name, sub, ok := cutElemSubscript(arg); vars && ok {
-				r.unsetElem(name, sub)
+				if !r.unsetElem(name, sub) {
+					exit.code = 1
+				}
 			} else if vars && r.lookupVar(arg).IsSet() {
 				r.delVar(arg)
 			} else if _, ok := r.Funcs[arg]; ok && funcs {
